@@ -8,13 +8,18 @@
 (* collected (at most MaxBad steps per run) and printed as one JSON document at the end.    *)
 (*                                                                                          *)
 (* Events (ndjson; addresses = byte offsets into the simulated arena, -1 = null/refused):   *)
-(*   {"ev":"reset","run":k,"c04":bool,"base":n}   new run: empty heap, nothing mapped       *)
+(*   {"ev":"reset","run":k,"c04":bool,"base":n,"real":bool}  new run: empty heap, nothing   *)
+(*        mapped; real = the run used the REAL mmap/mremap/munmap (no hook): no OS events,  *)
+(*        offsets relative to a window around the first pointer, Accessible is not judged   *)
+(*        (a null result has no refusal to justify it and is rejected below Huge)           *)
 (*   {"ev":"call","op":"malloc|calloc|realloc|free","id":n,"size":s,"align":a}              *)
 (*   {"ev":"os","call":"mmap","size":s,"off":o}    o = -1: the OS refused                   *)
 (*   {"ev":"os","call":"munmap","off":o,"size":s}                                           *)
 (*   {"ev":"os","call":"remap","off":o,"old":s1,"new":s2,"ret":o|-1}    in place            *)
 (*   {"ev":"ret","off":o,"ok":b,"zero":b,"prefix":b}   result and the recorder's flags      *)
 (*   {"ev":"rep"}                                   end of a workload repetition            *)
+(*   {"ev":"rep","fp":f,"hi":h}  real-OS runs: growth of the process' address space (VmSize) *)
+(*                                at the mark / its maximum since the previous mark          *)
 (*   {"ev":"panic"|"crash"|"timeout", ...}          the allocator did not return            *)
 (*   {"ev":"end"}                                   end of run: full invariants             *)
 (*   {"ev":"heap","segs":[{"base":b,"size":s,"chunks":[[addr,size,kind],..]},..]}           *)
@@ -33,13 +38,14 @@ VARIABLES
     i,      \* number of events consumed
     run,    \* current run
     c04,    \* the run is a C04 workload run (envelope applies)
+    real,   \* the run used the real OS (nothing is known about mapped)
     bad,    \* violations: sequence of [run, line, inv]
     nbad,   \* violating steps in the current run
     heap,   \* last chunk layout reported by the allocator (<<>> if none in this run)
     hknown, \* a layout was reported in this run
     drift,  \* model drift: sequence of [run, line, what]
     done
-tvars == <<i, run, c04, bad, nbad, heap, hknown, drift, done>>
+tvars == <<i, run, c04, real, bad, nbad, heap, hknown, drift, done>>
 
 Names == {"Aligned", "Disjoint", "Accessible", "Intact", "NullJustified", "OomClean", "Returns",
           "ReleaseOnce", "NoGratuitousMap", "SteadyState", "Envelope"}
@@ -48,7 +54,7 @@ AtEnd == obs.ev = "end"
 Holds(n) ==
     CASE n = "Aligned"         -> AlignedStep /\ (AtEnd => Aligned)
       [] n = "Disjoint"        -> DisjointStep /\ (AtEnd => Disjoint)
-      [] n = "Accessible"      -> AccessibleStep /\ (AtEnd => Accessible)
+      [] n = "Accessible"      -> real \/ (AccessibleStep /\ (AtEnd => Accessible))
       [] n = "Intact"          -> Intact
       [] n = "NullJustified"   -> NullJustified
       [] n = "OomClean"        -> OomClean
@@ -80,12 +86,12 @@ Apply(e) ==
             ELSE IF e.ret < 0 THEN (IF e.new > e.old THEN RefuseEff ELSE Mark("noop"))
             ELSE RemapEff(e.off, e.old, e.new)
       [] e.ev = "ret"   -> RetEff(e.off, e.ok, e.zero, e.prefix)
-      [] e.ev = "rep"   -> RepEff
+      [] e.ev = "rep"   -> IF real THEN RepEffAt(e.fp, e.hi) ELSE RepEff
       [] OTHER          -> Mark(e.ev)     \* end, panic, crash, timeout
 
 TInit ==
     /\ Init
-    /\ i = 0 /\ run = 0 /\ c04 = FALSE /\ bad = <<>> /\ nbad = 0 /\ done = FALSE
+    /\ i = 0 /\ run = 0 /\ c04 = FALSE /\ real = FALSE /\ bad = <<>> /\ nbad = 0 /\ done = FALSE
     /\ heap = <<>> /\ hknown = FALSE /\ drift = <<>>
 
 \* model drift observed at this event (evaluated on the state BEFORE the event is applied:
@@ -93,6 +99,7 @@ TInit ==
 \* reported after the previous call)
 DriftAt(e) ==
     IF e.ev = "heap" THEN D!Drift(e.segs, live, mapped)
+    ELSE IF e.ev = "ret" /\ ~real /\ e.dlfp >= 0 /\ e.dlfp # Footprint THEN {"FootprintAccounting"}
     ELSE IF e.ev = "os" /\ e.call = "mmap" /\ hknown /\ call.op \in AllocOps \cup {"realloc"}
                         /\ D!HasRoom(heap, call.size, call.align)
          THEN {"ExactReuse"}
@@ -105,6 +112,7 @@ Step ==
         /\ Apply(e)
         /\ run' = IF e.ev = "reset" THEN e.run ELSE run
         /\ c04' = IF e.ev = "reset" THEN e.c04 ELSE c04
+        /\ real' = IF e.ev = "reset" THEN e.real ELSE real
         /\ heap' = IF e.ev = "reset" THEN <<>> ELSE IF e.ev = "heap" THEN e.segs ELSE heap
         /\ hknown' = IF e.ev = "reset" THEN FALSE ELSE IF e.ev = "heap" THEN TRUE ELSE hknown
         /\ LET d == DriftAt(e) IN
@@ -121,7 +129,7 @@ Finish ==
     /\ i = NRec /\ ~done
     /\ done' = TRUE
     /\ PrintT(<<"VERDICT", ToJson([n |-> NRec, runs |-> run, bad |-> bad, drift |-> drift])>>)
-    /\ UNCHANGED <<vars, i, run, c04, bad, nbad, heap, hknown, drift>>
+    /\ UNCHANGED <<vars, i, run, c04, real, bad, nbad, heap, hknown, drift>>
 
 TNext == Step \/ Finish
 =============================================================================
